@@ -194,15 +194,20 @@ def reachable_ignoring_accessibility(module_scope, ent, seen=None):
     return any(reachable_ignoring_accessibility(u.module.inner, ent, seen) for u in module_scope.uses)
 
 
-def leak_through_private_module(scope, ent):
+def leak_through_private_module(scope, ent, name=None):
     """True if `ent` is NOT accessible from `scope` by the reference rules but would be found by a walk
-    that descends through a default-PRIVATE intermediate module (known fortls behaviour)."""
+    that descends through a default-PRIVATE intermediate module (known fortls behaviour).  With `name`: the
+    question is asked for that spelling - a module may export the entity under an alias only ('use a, only: y => x')
+    while a default-PRIVATE module on another of its USE paths leaks it under its own name."""
     s = scope
     while s is not None:
         for u in s.uses:
             m = u.module.inner
             if ent.scope is not m and reachable_ignoring_accessibility(m, ent):
-                exported = any(e is ent for e in m.exported().values())
+                if name is not None:
+                    exported = m.exported().get(name.lower()) is ent
+                else:
+                    exported = any(e is ent for e in m.exported().values())
                 if not exported:
                     return True
         s = s.parent
